@@ -115,7 +115,7 @@ def _env() -> _Env:
     return _ENV[0]
 
 
-def _run_sched(actor_set: list[str], max_idle: int, strategy: Any) -> tuple[Any, dict[str, Any]]:
+def _run_sched(actor_set: list[str], max_idle: int, strategy: Any, mode: str = "coarse", prefill: int = 0) -> tuple[Any, dict[str, Any]]:
     env = _env()
     S = env.S
     s = S.Scheduler(strategy, max_steps=8000, watchdog_s=30.0)
@@ -186,9 +186,13 @@ def _run_sched(actor_set: list[str], max_idle: int, strategy: Any) -> tuple[Any,
             return lambda: (s.point("start"), pool.close(), quiescent_check("close"))
         raise ValueError(kind)
 
+    # setup (not scheduled): park *prefill* idle workers so borrowers compete for reuse
+    held = [pool._borrow(key) for _ in range(prefill)]
+    for t in held:
+        env.pool._PooledTransport(t, pool).close()
     for i, kind in enumerate(actor_set):
         s.actor(f"{kind}{i}", mk(kind, i))
-    s.monitor_files(("vgi_rpc/pool.py",), line=True)
+    s.monitor_files(("vgi_rpc/pool.py",), line=(mode == "line"))
     try:
         s.run()
     finally:
@@ -231,8 +235,15 @@ def run_sched_shard(job: dict[str, Any]) -> dict[str, Any]:
     chk = Check(PID, job["tier"], job["seed"])
     rng = random.Random(job["seed"])
     for actor_set, max_idle in job["cases"]:
-        def make_run(strategy: Any, a: list[str] = actor_set, m: int = max_idle) -> Any:
-            s, info = _run_sched(a, m, strategy)
+        prefill = min(max_idle, 1)
+
+        def make_run(strategy: Any, a: list[str] = actor_set, m: int = max_idle, pf: int = prefill) -> Any:
+            s, info = _run_sched(a, m, strategy, "coarse", pf)
+            s._info = info
+            return s
+
+        def make_run_line(strategy: Any, a: list[str] = actor_set, m: int = max_idle, pf: int = prefill) -> Any:
+            s, info = _run_sched(a, m, strategy, "line", pf)
             s._info = info
             return s
 
@@ -246,7 +257,7 @@ def run_sched_shard(job: dict[str, Any]) -> dict[str, Any]:
         if st["truncated"]:
             chk.extra["dfs_truncated_cases"] = chk.extra.get("dfs_truncated_cases", 0) + 1
         strategies = [S.PCTStrategy(random.Random(rng.random()), len(actor_set), depth=3, horizon=300) for _ in range(job["pct"])]
-        st2 = S.explore_sampled(make_run, strategies, on_done=on_done)
+        st2 = S.explore_sampled(make_run_line, strategies, on_done=on_done)
         chk.extra["pct_schedules"] = chk.extra.get("pct_schedules", 0) + st2["schedules"]
     return chk.to_result()
 
@@ -454,7 +465,7 @@ def main(tier: str, seed: int) -> int:
     n = shard.ncpu()
     cases = [(a, mi) for a in SCHED_SETS for mi in (0, 1, 2)]
     sjobs = [
-        {"tier": tier, "seed": seed * 1000 + i, "cases": [c], "bound": 2 if quick else 3, "max_dfs": 60 if quick else 4000, "pct": 5 if quick else 300}
+        {"tier": tier, "seed": seed * 1000 + i, "cases": [c], "bound": 2 if quick else 3, "max_dfs": 300 if quick else 4000, "pct": 10 if quick else 300}
         for i, c in enumerate(cases)
     ]
     scen = real_scenarios()
